@@ -17,12 +17,12 @@ outcome anyway) and to stay inside the fragment modelled by coq/theories/lang/La
       F13 (nil let through a later type test after narrowing): type patterns `='t` are only
           applied to values whose static type has no nil member.
 
-  * the shapes of the findings of THIS property are avoided in free generation (their reproducers
-    live in corpus/c02_known.txt): F53c02 (a name that was matched on, or holds a tuple, is never
-    re-bound; label names are bound at most once by `(x)`/`*` patterns), F64c02 (only `Name*` on a
-    union-typed scrutinee), F73 (a branch condition never ends in a non-match step that can be
-    nil; blocks always have a default branch), F75 (no function variable in scope for the added
-    fields of a tuple containing a spread).
+  * findings of THIS property (all repaired in /repo; reproducers are regression probes in
+    corpus/c02_probes.txt): F53c02/F76 and F75 shapes are generated again (re-binding of any value
+    name, also from a field of itself; function variables in the added fields of a spread tuple).
+    Still not generated: an UNNAMED `*` on a union-typed scrutinee (reading R15 of Lang.v is exact
+    only when no outer binding is named like a label of another variant; `Name*` is used), and a
+    label name bound twice by `(x)`/`*` patterns.
 
 The emphasis follows the property text: failing mid-chain matches followed by variable uses,
 matches inside tuple fields and string holes, blocks inside consequences, `~` at depth, spreads,
@@ -325,7 +325,8 @@ class Gen:
         fflow = None
         # a callable that starts a field of a tuple containing a spread is not applied by the real
         # compiler (reported from this check): no function variables in scope for these fields
-        env_nf = [(x, t) for x, t in env if not (isinstance(t, tuple) and t[0] == "fn")]
+        # (F75, repaired in /repo 5ce1e95: function variables are allowed here again)
+        env_nf = env
         extras = [(l + ": " if l else "") + self.expr(ft, env_nf, fflow, depth + 1) for l, ft in rest]
         labelled = [(l, ft) for l, ft in base_fields if l]
         if labelled and r.random() < 0.5:
@@ -594,13 +595,13 @@ class Gen:
                 # rebinding an existing name (closures defined earlier keep the old value)
                 text = ",\n".join(steps)
                 vis = [(x, t) for x, t in self.lookup_latest(env)
-                       if t in (INT, BIN, STR) and x not in self.bound_labels and not self.matched_on(x, text)]
+                       if not (isinstance(t, tuple) and t[0] == "fn")]      # (F53/F76 repaired: any value name)
                 if vis:
                     x, _ = r.choice(vis)
                     t = self.rand_type()
                     # the new value does not read `x` itself (a rebinding `x = ..x.field..` hits a
                     # compiler defect reported from this check: stale static type of `x`)
-                    env_wo = [(y, yt) for y, yt in env if y != x]
+                    env_wo = env if r.random() < 0.6 else [(y, yt) for y, yt in env if y != x]
                     steps.append("%s = %s" % (x, self.expr(t, env_wo, None, 0)))
                     env.insert(0, (x, t))
                     self.note("rebinding")
